@@ -323,6 +323,9 @@ def run(ctx: Ctx):
         ctx.check(last == _av.C("double* values"), "R02.d", f.key("out-parameter"), "result is the trailing `double* values`", f"{f.qualname}: the last formal is {_av.show(last) if last else None}, not `double* values`", f.where())
     ctx.rule("R02.e", "the C functions number their slots like the index functions (slot families)", floor=17)
     slot_families(ctx, "R02.e")
+    from .c13 import missing_values_discipline
+
+    missing_values_discipline(ctx, "R02.e")
     ctx.rule("R02.h", "the front end the C backend shares with the others builds what the model text defines: operator table, fold direction, precedence ladder, function vocabulary, conditional builders (the rules of R01.a-e)", floor=40)
     from .c01 import front_end
 
